@@ -9,6 +9,19 @@ COMMON_NOTE = ("Trusted: Coq 8.16.1 kernel and its VM (vm_compute; no native_com
                "(virtual clock, scheduler, canonicalisation, case printer). ")
 # id -> (text, note, technique, design_ref)
 CLAIMED = {
+ "C03": ("Theorems over the Gallina image of TransactionBackend (overlay, pending deletes, commit, rollback) on the TTL-map spec: no transactional command "
+         "touches the underlying store; rollback returns it unchanged; commit makes every key read what the transaction's view showed, hence (with C04's "
+         "simulation) exactly what direct application of the same writes shows, and a key written with a TTL is committed with exactly its deadline. The real "
+         "Cache.transaction() in fast/locked/serializable mode (nested or not; commit, explicit rollback, exception) is compared with the model, an outside "
+         "observer reading value and deadline of every key from the raw backend after every command and after the block.",
+         "All commands of a transaction at one instant in the theorems (= no TTL elapses inside); clear() excluded; the wrapper's block/nesting logic is covered by the correspondence, the theorems are about the backend.",
+         "Coq proof (view simulation + commit fold lemma) + differential correspondence with outside observer", "3/C03"),
+ "C04": ("Simulation theorem: in any state where the transaction's view equals a directly-updated copy of the store (and no pending delete coexists with a live "
+         "overlay entry), each of the 13 commands returns what direct execution returns (delete's boolean aside, get_expire as missing/not) and keeps the relation; "
+         "lifted to every finite command sequence and every initial store. Real in-transaction results are compared with the model and with the same "
+         "sequence applied directly, step by step.",
+         "Commands at one instant in the theorem; patterns 'prefix*' (matcher is C13); reserved ':' keys filtered from pattern reads.",
+         "Coq proof (simulation relation preserved by every command) + differential correspondence", "3/C04"),
  "C12": ("The unchanged code violates the property in two recorded ways (F20 tag-set TTL follows the latest add; F21 unregistered tags are not pruned): both are "
          "theorems `..._refuted` about the faithful model (witness evaluated in the kernel) and are replayed on the real code on every run, where they print "
          "KNOWN-FINDING. Proved for all states: a tagged write joins every named tag set for any TTL; delete_tags leaves no member of the tag's live set readable. "
